@@ -156,7 +156,7 @@ fn apply_to(v: &Value, m: Mutation) -> Option<Value> {
         Mutation::TruncateOne => match v {
             Value::Bytes(b) if !b.is_empty() => Value::Bytes(b[..b.len() - 1].to_vec()),
             Value::List(l) if !l.is_empty() => Value::List(l[..l.len() - 1].to_vec()),
-            Value::Int(i) => Value::Int(i - 1),
+            Value::Int(i) => Value::Int(i.wrapping_sub(1)),
             other => other.clone(),
         },
         Mutation::ExtendOne => match v {
